@@ -89,6 +89,19 @@ def run(ctx):
         for rep in range(3 * reps):
             runs.append(Run("mp%d_%d" % (fi, rep), {"in/s.json": json.dumps(msch)}, ["-p", "example.com/dflt", "-o", "out/dflt.go"] + flags + ["in/s.json"]))
             meta.append((base_si + fi, "mappings-%d-run-%d" % (fi, rep)))
+    nodef_files = {"in/order.json": json.dumps({"$id": "http://x/order", "type": "object", "properties": {"ship": {"$ref": "address.json"}, "bill": {"$ref": "address.json"}, "c": {"$ref": "customer.json"}}}),
+                   "in/customer.json": json.dumps({"$id": "http://x/customer", "type": "object", "properties": {"name": {"type": "string", "minLength": 1}, "home": {"$ref": "address.json"}}}),
+                   "in/catalog.json": json.dumps({"$id": "http://x/catalog", "type": "object", "properties": {"sku": {"type": "string"}}}),
+                   "in/address.json": json.dumps({"type": "object", "properties": {"street": {"type": "string"}}, "required": ["street"]})}
+    nd_flags = []
+    for k, n in enumerate(("order", "customer", "catalog", "invoice")):
+        nd_flags += ["--schema-package", "http://x/%s=example.com/%s" % (n, n), "--schema-output", "http://x/%s=out/%s.go" % (n, n)]
+    for ni, argv in enumerate((nd_flags + ["in/order.json", "in/customer.json", "in/catalog.json"], nd_flags + ["-o", "out/common.go", "in/order.json", "in/catalog.json"],
+                               nd_flags[:4] + ["in/order.json"])):
+        schemas.append({"no-default-package": argv})
+        for rep in range(4 * reps):
+            runs.append(Run("nd%d_%d" % (ni, rep), nodef_files, argv))
+            meta.append((len(schemas) - 1, "mappings-no-default-%d-run-%d" % (ni, rep)))
     # multi-file layouts: extension-less references with several candidate files, several resolve / yaml extensions, several file arguments
     item_j = {"type": "object", "properties": {"price": {"type": "number"}, "currency": {"type": "string"}}, "required": ["price", "currency"]}
     item_y = "type: object\nproperties:\n  price:\n    type: number\nrequired: [price]\n"
